@@ -669,6 +669,11 @@ func (e *SpecEnv) trCall(x *ECall) (TV, error) {
 		}
 		id := idOf(args[0])
 		return TV{and("(<= 0 "+id+")", "(< "+id+" "+c0+")"), tyBool}, nil
+	case "charAt": // charAt(s, i): the one-character string at position i ("" outside the string)
+		if err := need(2); err != nil {
+			return TV{}, err
+		}
+		return TV{"(str.at " + args[0].T + " " + args[1].T + ")", tyString}, nil
 	case "str_at_code":
 		if err := need(2); err != nil {
 			return TV{}, err
@@ -679,6 +684,19 @@ func (e *SpecEnv) trCall(x *ECall) (TV, error) {
 			return TV{}, err
 		}
 		return TV{"(str.indexof " + args[0].T + " " + args[1].T + " " + args[2].T + ")", tyInt}, nil
+	case "classRun": // classRun(s, "idch"|"space"): the maximal prefix of s made of characters of the class
+		if err := need(2); err != nil {
+			return TV{}, err
+		}
+		lit, ok := x.Args[1].(*EStr)
+		if !ok {
+			return TV{}, fmt.Errorf("classRun needs a literal class name")
+		}
+		body := map[string]string{"idch": "A-Za-z0-9-.", "space": " "}[lit.V]
+		if body == "" {
+			return TV{}, fmt.Errorf("unknown class %q", lit.V)
+		}
+		return TV{classRunApp(vc, body, args[0].T, false), tyString}, nil
 	case "inRe": // inRe(s, "idch*") etc: fixed regular languages
 		if err := need(2); err != nil {
 			return TV{}, err
